@@ -39,6 +39,9 @@ func opRespRead(a []string) []string {
 	if strings.Contains(a[0], "n") {
 		r.Header.DisableNormalizing()
 	}
+	if strings.Contains(a[0], "h") {
+		r.SkipBody = true // as the client does for a HEAD request
+	}
 	maxBody, _ := strconv.Atoi(a[1])
 	stream := unhx(a[3])
 	sc := newScriptConn(stream, parseCuts(a[4]), a[2] == "stall")
@@ -156,6 +159,9 @@ func genC11(tier string, rng *Rng) {
 		flags := "-"
 		if rng.Intn(10) == 0 {
 			flags = "n"
+		}
+		if i%8 == 3 { // answer to a HEAD request: the client sets SkipBody (no rng draw: the other cases stay as they were)
+			flags = strings.TrimPrefix(flags+"h", "-")
 		}
 		maxBody := "0"
 		if rng.Intn(6) == 0 {
